@@ -195,13 +195,17 @@ fn main() {
     let args = parse_args();
     let mut scripts: Vec<(String, Vec<String>)> = vec![];
     let mut reals: Vec<Vec<String>> = vec![];
+    let mut raws: Vec<(Vec<String>, bool)> = vec![];
     let mut erase_of: Vec<Option<u64>> = vec![];
 
     if let Some(path) = &args.replay {
         let text = std::fs::read_to_string(path).expect("replay script");
         let lines: Vec<String> = text.lines().filter(|l| !l.trim().is_empty() && !l.starts_with('#')).map(|l| l.to_string()).collect();
         let erase = if args.erase { Some(args.seed) } else { None };
-        reals.push(world::run_script(&lines, erase));
+        let mut i = 0;
+        let ro = world::run_with(|_| { let l = lines.get(i).cloned(); i += 1; l }, erase);
+        reals.push(ro.canon);
+        raws.push((ro.raw, ro.settled));
         scripts.push((format!("replay:{path}"), lines));
         erase_of.push(erase);
     } else {
@@ -217,7 +221,10 @@ fn main() {
                         continue;
                     }
                     let erase = if args.erase { Some(args.seed) } else { None };
-                    reals.push(world::run_script(&lines, erase));
+                    let mut i = 0;
+                    let ro = world::run_with(|_| { let l = lines.get(i).cloned(); i += 1; l }, erase);
+                    reals.push(ro.canon);
+                    raws.push((ro.raw, false));
                     scripts.push((format!("corpus:{}", p.file_name().unwrap().to_string_lossy()), lines));
                     erase_of.push(erase);
                 }
@@ -229,9 +236,10 @@ fn main() {
             let seed = args.seed.wrapping_mul(1_000_003).wrapping_add(i as u64);
             let mut g = Gen::new(seed, fam);
             let erase = if args.erase { Some(seed ^ 0xE2A5E) } else { None };
-            let (script, real) = world::run_with(|w| g.next(w), erase);
-            scripts.push((format!("{fam_name}:{seed}"), script));
-            reals.push(real);
+            let ro = world::run_with(|w| g.next(w), erase);
+            scripts.push((format!("{fam_name}:{seed}"), ro.script));
+            reals.push(ro.canon);
+            raws.push((ro.raw, ro.settled));
             erase_of.push(erase);
         }
     }
@@ -282,9 +290,9 @@ fn main() {
     if let Some(path) = &args.traces {
         let mut f = std::fs::File::create(path).expect("traces file");
         for (i, (name, script)) in scripts.iter().enumerate() {
-            writeln!(f, "trace {name}").unwrap();
+            writeln!(f, "trace {} {}", name.replace(' ', "_"), if raws[i].1 { "settled" } else { "open" }).unwrap();
             writeln!(f, "{}", script.first().cloned().unwrap_or_default()).unwrap();
-            for l in &reals[i] {
+            for l in &raws[i].0 {
                 writeln!(f, "{l}").unwrap();
             }
             writeln!(f, "endtrace").unwrap();
